@@ -167,6 +167,11 @@ func (e *mexec) run(level int) mres {
 				return e.cancelResult()
 			}
 			if st.exhausted {
+				// the policy gave up earlier in this execution: what comes back now is passed through, not handled again
+				// (no events, no ExceededError), but an outcome the policy classifies as a failure is still a failure (D15)
+				if p.Handle.isFailure(r.res, r.err) {
+					return mres{r.res, r.err, false, false}
+				}
 				return r
 			}
 			if !p.Handle.isFailure(r.res, r.err) {
